@@ -29,12 +29,13 @@ struct Seq {
 fn link_sequences(link: u8, len: usize, stave: bool) -> Vec<Seq> {
     let mut cfg = match link {
         0 => LinkCfg::ib(0, 3),
+        // links 1 and 2: same layer, staves that differ only in the top bit of the stave number (3 vs 35)
         1 => {
-            let mut c = LinkCfg::ol(1, 9, false);
+            let mut c = LinkCfg::ol(1, 3, false);
             c.data_format = 0;
             c
         }
-        _ => LinkCfg::ml(2, 20, true),
+        _ => LinkCfg::ol(2, 35, false),
     };
     cfg.bc_step = 0x40;
     let shapes: Vec<HbfShape> = if stave { grammar::stave_hbf_shapes(&cfg) } else { grammar::basic_hbf_shapes(&cfg) }.into_iter().map(|s| s.1).collect();
